@@ -75,35 +75,35 @@ type veEnv struct {
 	rlog                                                   *log.FileIO
 	slog                                                   *log.FileIO
 
-	mu        sync.Mutex
-	events    []veEvent
-	faults    []veFault // consumed one per Transmit call
-	pollFault []string  // per Validate call: "" | err | none (answer not-found for everything)
-	txCalls   int
-	acked     map[string]int64 // name|hash -> bytes acknowledged by successful answers
-	sentBytes map[string]int64 // name -> bytes put on the wire (incl. repeats)
-	txRanges  map[string][][2]int64
-	frozen    bool
-	freezeAt  int // freeze (sender crash) when the event counter reaches this (0 = never)
-	freezeAfterTx int // > 0: freeze at the k-th event counted from the first "txret" (k = 1: at that answer)
-	crashed   chan bool
-	block     chan bool
-	stopAt    int // send the stop signal when the event counter reaches this (0 = at quiescence)
-	stopAfterTx int // > 0: stop at the k-th event counted from the first answer to a data request
-	stopAtPoll  bool // stop while the first poll answer is on its way back
-	stopFn    func()
-	stopSeen  func() bool
-	badRemove int
-	removes   []string
-	sentEarly int
-	vanished  int
-	ctl       *verifos.Controller
-	swapName  string
-	swapSize  int64
-	swapFn    func()
-	versionOf func(name, hash string) string
-	failHeadOf string
-	failHeadN  int
+	mu                sync.Mutex
+	events            []veEvent
+	faults            []veFault // consumed one per Transmit call
+	pollFault         []string  // per Validate call: "" | err | none (answer not-found for everything)
+	txCalls           int
+	acked             map[string]int64 // name|hash -> bytes acknowledged by successful answers
+	sentBytes         map[string]int64 // name -> bytes put on the wire (incl. repeats)
+	txRanges          map[string][][2]int64
+	frozen            bool
+	freezeAt          int // freeze (sender crash) when the event counter reaches this (0 = never)
+	freezeAfterTx     int // > 0: freeze at the k-th event counted from the first "txret" (k = 1: at that answer)
+	crashed           chan bool
+	block             chan bool
+	stopAt            int  // send the stop signal when the event counter reaches this (0 = at quiescence)
+	stopAfterTx       int  // > 0: stop at the k-th event counted from the first answer to a data request
+	stopAtPoll        bool // stop while the first poll answer is on its way back
+	stopFn            func()
+	stopSeen          func() bool
+	badRemove         int
+	removes           []string
+	sentEarly         int
+	vanished          int
+	ctl               *verifos.Controller
+	swapName          string
+	swapSize          int64
+	swapFn            func()
+	versionOf         func(name, hash string) string
+	failHeadOf        string
+	failHeadN         int
 	slowOpenAfterFail time.Duration
 	failedSeen        map[string]bool
 }
@@ -489,41 +489,43 @@ func (e *veEnv) recoverer() ([]*sts.Partial, error) {
 
 // ---- scenario -------------------------------------------------------------------------
 type veFileSpec struct {
-	name    string
-	size    int
-	seedb   byte
-	age     time.Duration
+	name     string
+	size     int
+	seedb    byte
+	age      time.Duration
 	eligible bool
 }
 
 type veScenario struct {
-	id        string
-	profile   string
-	files     []veFileSpec
-	del       bool
-	threads   int
-	payload   int64
-	chunk     int64
-	faults    []veFault
-	pollFault []string
-	stopKind  string // "" (run until quiescent then graceful), graceful, now
-	stopAt    int
-	crashAt   int
-	reuse     bool   // after the first delivery a file is created anew under a used name
-	mutate    string // name of a file rewritten while queued
-	stopAfterTx   int  // stop at the k-th interface event counted from the first answer to a data request
-	stopAtPoll    bool // stop while the first poll answer is on its way back
-	crashAfterTx  int  // crash at the k-th interface event counted from the first answer to a data request
+	id                string
+	profile           string
+	files             []veFileSpec
+	del               bool
+	threads           int
+	payload           int64
+	chunk             int64
+	faults            []veFault
+	pollFault         []string
+	stopKind          string // "" (run until quiescent then graceful), graceful, now
+	stopAt            int
+	crashAt           int
+	reuse             bool   // after the first delivery a file is created anew under a used name
+	reuseFault        string // ... and the first request(s) carrying the new version are lost without a part count (data recovery)
+	reuseFaultN       int
+	mutate            string        // name of a file rewritten while queued
+	stopAfterTx       int           // stop at the k-th interface event counted from the first answer to a data request
+	stopAtPoll        bool          // stop while the first poll answer is on its way back
+	crashAfterTx      int           // crash at the k-th interface event counted from the first answer to a data request
 	slowOpenAfterFail time.Duration // re-reading a file whose validation failed takes this long
-	failHeadOf    string // the request carrying the first part of this file is refused failHeadN times
-	failHeadN     int
-	goneWhileDown bool // crash profiles: one unfinished source file is removed while the sender is down
-	swap      string // name of a file replaced by a same-size version (mtime in the same second) right after its last byte was received
-	scanDelay time.Duration
-	include   string
-	ignore    string
-	hidden    bool
-	minAge    time.Duration
+	failHeadOf        string        // the request carrying the first part of this file is refused failHeadN times
+	failHeadN         int
+	goneWhileDown     bool   // crash profiles: one unfinished source file is removed while the sender is down
+	swap              string // name of a file replaced by a same-size version (mtime in the same second) right after its last byte was received
+	scanDelay         time.Duration
+	include           string
+	ignore            string
+	hidden            bool
+	minAge            time.Duration
 }
 
 func veContent(f veFileSpec, version int) []byte {
@@ -773,6 +775,15 @@ func veRun(tmp string, sc veScenario) string {
 							}
 						} else if c := b0.Conf.Cache.Get(f.name); c == nil || !c.IsDone() {
 							continue
+						}
+						if sc.reuseFault != "" {
+							// the request that carries the new version is lost on the way, without a part
+							// count: the sender asks the receiver what it holds (data recovery)
+							e.mu.Lock()
+							for i := 0; i < sc.reuseFaultN; i++ {
+								e.faults = append(e.faults, veFault{kind: sc.reuseFault, at: 0})
+							}
+							e.mu.Unlock()
 						}
 						write(f, 2)
 						reused = true
@@ -1067,9 +1078,10 @@ func veRun(tmp string, sc veScenario) string {
 	}
 	sort.Strings(keys)
 	var sb strings.Builder
-	fmt.Fprintf(&sb, "E %s %s files=%d del=%v threads=%d payload=%d chunk=%d faults=%d pollfaults=%d stop=%s stopat=%d crashat=%d reuse=%v mutate=%s =",
+	fmt.Fprintf(&sb, "E %s %s files=%d del=%v threads=%d payload=%d chunk=%d faults=%d pollfaults=%d stop=%s stopat=%d crashat=%d reuse=%v reusefault=%s mutate=%s =",
 		sc.id, sc.profile, len(sc.files), sc.del, sc.threads, sc.payload, sc.chunk, len(sc.faults), len(sc.pollFault),
 		map[bool]string{true: "-", false: sc.stopKind}[sc.stopKind == ""], sc.stopAt, sc.crashAt, sc.reuse,
+		map[bool]string{true: "-", false: sc.reuseFault}[sc.reuseFault == ""],
 		map[bool]string{true: "-", false: sc.mutate}[sc.mutate == ""])
 	for _, k := range keys {
 		fmt.Fprintf(&sb, " %s=%s", k, facts[k])
@@ -1208,6 +1220,10 @@ func veGen(r *gen.Rand, id string, profile string) veScenario {
 	case "reuse":
 		sc.reuse = true
 		sc.del = r.Chance(2, 3)
+		if r.Chance(1, 2) {
+			sc.reuseFault = []string{"cutbefore", "unavail", "lost", "cutafter"}[r.Intn(4)]
+			sc.reuseFaultN = 1 + r.Intn(2)
+		}
 	case "mutate", "vanish":
 		if len(sc.files) > 0 {
 			sc.mutate = sc.files[r.Intn(len(sc.files))].name
